@@ -19,6 +19,10 @@ exchanged, interval [-max, -min]) is snapshot the same way; after every step the
 bit-for-bit the left data of the mirrored run and conversely (ctx.violation with the pipeline cut at the first
 step that differs); without a validation step the right cost volume / dataset must stay empty."""
 import hashlib
+import json
+import os
+import shutil
+import tempfile
 from fractions import Fraction
 
 import numpy as np
@@ -342,12 +346,92 @@ def cut_case(case, k):
     return cut
 
 
+# ---------------------------------------------------------------------------- through pandora.main
+
+
+def run_main_case(ctx, model, case):
+    """the same comparison through the command-line entry: rasters on disk, pandora.main (which derives the right
+    interval [-max, -min] in the input section, pandora/__init__.py), products handed to save_results against the
+    final state of the composed model run on the datasets main builds"""
+    import pandora
+    from pandora import common, check_configuration as cc
+    from pandora.img_tools import create_dataset_from_inputs
+    from pandora.state_machine import PandoraMachine
+    from harness.props.c19 import Spy, write_tif
+
+    names = [n for n, _ in case["steps"]]
+    d = tempfile.mkdtemp(prefix="pandora_c08_")
+    assert not os.path.realpath(d).startswith((os.path.realpath(core.REPO), os.path.realpath(core.VERIF)))
+    try:
+        inp = {"left": {"img": os.path.join(d, "left.tif"), "disp": list(case["disp"])},
+               "right": {"img": os.path.join(d, "right.tif")}}
+        write_tif(inp["left"]["img"], np.array(case["left"]), "float32")
+        write_tif(inp["right"]["img"], np.array(case["right"]), "float32")
+        for side in ("left", "right"):
+            if case["mask_" + side] is not None:
+                inp[side]["mask"] = os.path.join(d, side + "_mask.tif")
+                write_tif(inp[side]["mask"], np.array(case["mask_" + side]), "int16")
+        user = {"input": inp, "pipeline": {n: dict(c) for n, c in case["steps"]}}
+        cfg_path = os.path.join(d, "cfg.json")
+        with open(cfg_path, "w") as f:
+            json.dump(user, f)
+        with Spy(common) as spy:
+            pandora.main(cfg_path, os.path.join(d, "out"), False)
+        ctx.traces += 1
+        ctx.count("pipeline_main_runs")
+        left_mem, right_mem = spy.calls[0]
+        # the datasets main builds from the files (mask convention 0 / 1 / 2), given to the model
+        checked = cc.check_conf(json.loads(json.dumps(user)), PandoraMachine())
+        dl = create_dataset_from_inputs(checked["input"]["left"])
+        dr = create_dataset_from_inputs(checked["input"]["right"])
+        c2 = dict(case)
+        c2["via_main"] = True
+        c2["left"] = np.asarray(dl["im"].data).astype(int).tolist()
+        c2["right"] = np.asarray(dr["im"].data).astype(int).tolist()
+        c2["mask_left"] = np.asarray(dl["msk"].data).astype(int).tolist() if "msk" in dl else None
+        c2["mask_right"] = np.asarray(dr["msk"].data).astype(int).tolist() if "msk" in dr else None
+        kinds = [n.split(".")[0] for n in names]
+        # the property on the real code: main's right products against the left products of the real run on the
+        # mirrored datasets (and conversely), bit for bit
+        if "validation" in kinds:
+            c2["right_disp_given"] = True
+            _, _, l_m, r_m = run_real(mirrored(c2))
+            ctx.traces += 1
+            for a, b, what in ((grab_ds(right_mem), grab_ds(l_m), "right products of pandora.main vs left products of the mirrored run"),
+                               (grab_ds(left_mem), grab_ds(r_m), "left products of pandora.main vs right products of the mirrored run")):
+                if bits(a) != bits(b):
+                    ctx.violation("pipeline_main_mirror_differs",
+                                  f"pipeline {names} through pandora.main on (L, R, {case['disp']}): {what} on "
+                                  f"(R, L, {mirrored(case)['disp']}) differ", c2)
+                    break
+        res = model.call(1, model_arg(c2))
+        if res is None or any(mo[1] != 1 for mo in res[1]):
+            ctx.count("pipeline_main_model_undefined")
+            return
+        exact = "refinement" not in kinds
+        if not exact and "validation" in kinds:
+            ctx.count("pipeline_main_skipped_refinement_before_validation")   # tie screening needs the snapshots
+            return
+        last = res[1][-1]
+        diff = cmp_side(1, grab_ds(left_mem), last[2], exact, "main left") or \
+            cmp_side(1, grab_ds(right_mem), last[3], exact, "main right")
+        ctx.count("pipeline_main_products_compared")
+        if diff:
+            ctx.mismatch("pipeline_main_products", case, diff, "Model/PipelineRun.v run_pipeline on (L, R, [min, max])")
+    finally:
+        shutil.rmtree(d, ignore_errors=True)
+
+
 # ---------------------------------------------------------------------------- the stream
 
 
 def run_stream(ctx, n_cases):
     rng = ctx.rng
     model = core.Model("x21")
+    if ctx.replay_case is not None and ctx.replay_case.get("via_main"):
+        run_main_case(ctx, model, ctx.replay_case)
+        ctx.case(None)
+        return
     if ctx.replay_case is not None:
         cases = [ctx.replay_case]
     else:
@@ -452,3 +536,11 @@ def run_stream(ctx, n_cases):
             ctx.count("pipeline_cases_agreeing_to_the_end")
         ctx.sample({"stream": "pipeline", "steps": names, "shape": [case["rows"], case["cols"]], "interval": case["disp"],
                     "right_disp_given": case["right_disp_given"], "compared_exactly": exact}, limit=8)
+    # ---- a few cases through the command-line entry
+    if ctx.replay_case is None:
+        for case in cases[:max(6, n_cases // 40)]:
+            try:
+                run_main_case(ctx, model, case)
+            except Exception as exc:  # pylint: disable=broad-except
+                ctx.count("pipeline_main_raised_" + pu.exc_class(exc))
+                ctx.mismatch("pipeline_main_raised", case, f"{type(exc).__name__}: {exc}"[:300], "pandora.main runs")
